@@ -570,14 +570,14 @@ static void prop_inverse_scalar(Tape &t, Ctx &c) {
 // ------------------------------------------------------------------ registration
 static std::vector<Prop> props() {
     return {
-        Prop("lu_exact_double", prop_lu_exact<double>, 2500, 25000, 100, 40, {1}, 2, 4),
-        Prop("lu_exact_complex", prop_lu_exact<cplx>, 1200, 12000, 100, 60, {1}, 1, 2),
-        Prop("lu_exact_blk2", prop_lu_exact<blk2>, 1200, 12000, 100, 120, {1}, 1, 2),
-        Prop("lu_exact_blk3", prop_lu_exact<blk3>, 600, 6000, 100, 200, {1}, 1, 2),
-        Prop("lu_float_double", prop_lu_float<double>, 1500, 15000, 100, 60, {1, 4}, 2, 4),
-        Prop("lu_float_complex", prop_lu_float<cplx>, 800, 8000, 100, 100, {1}, 1, 2),
-        Prop("lu_float_blk2", prop_lu_float<blk2>, 600, 6000, 100, 150, {1}, 1, 2),
-        Prop("lu_float_blk3", prop_lu_float<blk3>, 400, 4000, 100, 250, {1}, 1, 2),
+        Prop("lu_exact_double", prop_lu_exact<double>, 4000, 40000, 100, 40, {1}, 2, 4),
+        Prop("lu_exact_complex", prop_lu_exact<cplx>, 3000, 30000, 100, 60, {1}, 1, 2),
+        Prop("lu_exact_blk2", prop_lu_exact<blk2>, 3000, 30000, 100, 120, {1}, 1, 2),
+        Prop("lu_exact_blk3", prop_lu_exact<blk3>, 1500, 15000, 100, 200, {1}, 1, 2),
+        Prop("lu_float_double", prop_lu_float<double>, 2500, 25000, 100, 60, {1, 4}, 2, 4),
+        Prop("lu_float_complex", prop_lu_float<cplx>, 2400, 24000, 100, 100, {1}, 1, 2),
+        Prop("lu_float_blk2", prop_lu_float<blk2>, 1800, 18000, 100, 150, {1}, 1, 2),
+        Prop("lu_float_blk3", prop_lu_float<blk3>, 1000, 10000, 100, 250, {1}, 1, 2),
         Prop("cm", prop_cm, 3000, 30000, 100, 20, {1, 4}, 1, 2),
         Prop("inverse_double", prop_inverse_dyn<double>, 3000, 30000, 100, 2, {1}, 1, 2),
         Prop("inverse_complex", prop_inverse_dyn<cplx>, 2000, 20000, 100, 3, {1}, 1, 2),
